@@ -65,6 +65,27 @@ pub fn register(m: &mut HashMap<&'static str, OpFn>) {
         o.push(hex(AsRef::<[u8]>::as_ref(&s.diffie_hellman(&their))));
         o
     });
+    // the OS-randomness constructors (feature getrandom): nothing to compare the secret with, but the public key and
+    // the shared secret must be consistent with what the peer (whose secret is given) computes
+    m.insert("x.random", |a| {
+        let peer = StaticSecret::from(a.b32(0));
+        let peer_pub = PublicKey::from(&peer);
+        let mut o = Vec::new();
+        let e = EphemeralSecret::random();
+        let pe = PublicKey::from(&e);
+        o.push(hex(pe.as_bytes()));
+        o.push(hex(e.diffie_hellman(&peer_pub).as_bytes()));
+        let r = ReusableSecret::random();
+        let pr = PublicKey::from(&r);
+        o.push(hex(pr.as_bytes()));
+        o.push(hex(r.diffie_hellman(&peer_pub).as_bytes()));
+        let s = StaticSecret::random();
+        let ps = PublicKey::from(&s);
+        o.push(hex(ps.as_bytes()));
+        o.push(hex(s.diffie_hellman(&peer_pub).as_bytes()));
+        o.push(hex(&s.to_bytes()));
+        o
+    });
     m.insert("x.pubkey", |a| {
         let p = PublicKey::from(a.b32(0));
         let q = PublicKey::from(a.b32(1));
